@@ -212,6 +212,7 @@ func checkC07(c *CheckCtx) error {
 }
 
 func checkC09(c *CheckCtx) error {
+	c.NontrivialStat = "cleans_with_stale"
 	c.Rule = "directory contents (stale entries at any position, stale standalone files, decoys, sub-directories, unvisited directories) x addressed sets x Clean modes incl. sort+stale+no-clean; non-trivial = distinct scenario with at least one stale item or decoy"
 	c.Assumptions = []string{cleanAssumptions, "no -run filter in these scenarios (the property speaks about unfiltered runs)"}
 	if err := c.cleanModel(); err != nil {
